@@ -475,3 +475,21 @@ def unary_result(ctx, callable_term):
         fb = ctx.ibody(callable_term[1])
         return render(mir.subst(fb.return_term(), lambda q: ("cparam", 1) if q[0] == "param" and q[1] == 1 else None))
     return None
+
+
+def untry(b, term):
+    """`expr?` read as a value: Try::branch(X).as:Continue.0 becomes the Ok / Some payload of X (so `x.map(f)?` and
+    `f(x?)` denote the same term); X's Result / Option type is read from the call site's own type arguments"""
+    def f(q):
+        if q[0] == "proj" and q[1][0] == "call" and q[1][1].endswith("Try::branch") and q[2][:2] == ("as:Continue", "0") and len(q[1]) > 3:
+            site = q[1][3]
+            try:
+                selfty = b.blocks[site]["term"]["f"]["args"][0]
+            except Exception:
+                return None
+            v = "as:Ok" if selfty.startswith("std::result::Result<") else ("as:Some" if selfty.startswith("std::option::Option<") else None)
+            if v is None:
+                return None
+            return mir.mk_proj(untry(b, q[1][2][0]), (v, "0") + tuple(q[2][2:]))
+        return None
+    return mir.subst(term, f)
